@@ -61,7 +61,7 @@ class Sym:
         k = self.t[0]
         if k == "var":
             return True
-        if k == "q":
+        if k in ("q", "ext"):
             return False
         if k == "pow":
             return self.t[1].has_var()
@@ -357,6 +357,7 @@ class Interp:
             for k, c in m.classes.items():
                 self.classes[k] = c
         self.steps = 0
+        self.call_log = []
 
     # ---- class resolution (C3 linearisation restricted to known classes) ----
     def mro(self, cls: ClassInfo) -> list[ClassInfo]:
@@ -766,7 +767,8 @@ class Interp:
 
     def attribute(self, e: ast.Attribute, env):
         # enum-like constants: ElemType.TRI3, MatrixType.mass -> their name
-        if isinstance(e.value, ast.Name) and e.value.id in ("ElemType", "MatrixType", "AlgoType", "ModelType"):
+        if (isinstance(e.value, ast.Name) and e.value.id in ("ElemType", "MatrixType", "AlgoType", "ModelType")
+                and e.value.id not in self.classes and e.value.id not in env):
             return e.attr
         o = self.eval(e.value, env)
         if isinstance(o, Obj):
@@ -797,6 +799,10 @@ class Interp:
             return ("classmethod", o, e.attr)
         if isinstance(o, tuple) and o and o[0] == "super":
             return ("supermethod", o[1], o[2], e.attr)
+        if isinstance(o, list) and e.attr in ("extend", "append"):
+            return ("listmethod", o, e.attr)
+        if isinstance(o, str) and e.attr in ("startswith",):
+            return ("strmethod", o, e.attr)
         raise Refuse("attribute access " + ast.unparse(e))
 
     def call(self, e: ast.Call, env):
@@ -819,6 +825,14 @@ class Interp:
                 _, obj, owner, name = f
                 # property of the parent accessed as attribute is handled in attribute()
                 return self.call_method(obj, name, args, after=owner)
+            if kind == "listmethod":
+                if f[2] == "extend":
+                    f[1].extend(self.iterate(args[0]))
+                else:
+                    f[1].append(args[0])
+                return None
+            if kind == "strmethod":
+                return f[1].startswith(args[0])
             if kind == "bound":
                 return self.call_method(f[1], f[2], args)
             if kind == "builtin":
@@ -829,6 +843,7 @@ class Interp:
                 return self.ndmethod(f[1], f[2], args, kwargs)
             if kind == "classmethod":
                 _, cls, name = f
+                self.call_log.append((cls.name, name, tuple(args)))
                 if name in cls.methods:
                     fn = cls.methods[name]
                     envc = {"__class__": cls}
@@ -878,6 +893,10 @@ class Interp:
     def numpy(self, name, args, kwargs):
         if name in ("array", "asarray"):
             return NDArray(to_nested(args[0]))
+        if name == "polynomial.legendre.leggauss":
+            n = self.as_int(args[0])
+            return (NDArray([Sym(("ext", "leggauss_x", n, i)) for i in range(n)]),
+                    NDArray([Sym(("ext", "leggauss_w", n, i)) for i in range(n)]))
         if name == "sqrt":
             return s_sqrt(args[0])
         if name in ("cos", "sin", "log", "arccos", "exp", "tan"):
